@@ -76,6 +76,11 @@ func initShapes() {
 		{"identical-fs", []security.AuthMethod{F}, []security.AuthMethod{F}, true},
 		{"token", []security.AuthMethod{T}, []security.AuthMethod{T}, true},
 		{"token-then-fs/fs-then-token", []security.AuthMethod{T, F}, []security.AuthMethod{F, T}, true},
+		// names that carry no method bit at all (unknown to the bitmask, or NONE) ahead of the usable method
+		{"server-unknown-first", []security.AuthMethod{C}, []security.AuthMethod{security.AuthMethod("GSI"), C}, true},
+		{"server-none-first", []security.AuthMethod{C, F}, []security.AuthMethod{security.AuthNone, F}, true},
+		{"client-unknown-first", []security.AuthMethod{security.AuthMethod("MUNGE"), F, C}, []security.AuthMethod{C}, true},
+		{"both-unknown-first", []security.AuthMethod{U, C}, []security.AuthMethod{security.AuthMethod("ANONYMOUS"), U, C}, true},
 	}
 }
 
